@@ -13,6 +13,8 @@ HOOK_GUARD = 'PY_STRINGSIMJOIN_VERIF'
 TLA_JAR = '/opt/veriftools/tla/tla2tools.jar'
 TLA_DEPS = '/opt/veriftools/tla/CommunityModules-deps.jar'
 
+TLC_STACK = os.environ.get('VERIF_TLC_STACK', '512m')   # per Java thread, reserved not committed
+
 NCPU = min(16, os.cpu_count() or 4)
 
 
